@@ -33,8 +33,14 @@ def probeDR (f : List String) : String :=
       { state := DataReader.St.fromCode (natOf st), limited := lim != "-", n := natOf lim }
     let (outs, rf, rest) := DataReader.readSched r (bytesOfHex stream) (natsOf sizes)
     let parts := outs.map fun (o, res) => hexOfBytes o ++ "/" ++ resName (end_ == "err") res
+    -- a backend that reads once more after the end of the message (4-octet buffer): what it gets
+    let again := match outs.getLast? with
+      | some (_, .eof) =>
+        let (_, o2, _, res2) := DataReader.read rf rest 4
+        toString o2.length ++ "/" ++ resName (end_ == "err") res2
+      | _ => "-"
     String.intercalate "," parts ++ "\t" ++ hexOfBytes rest ++ "\t" ++ toString rf.state.code ++ "\t" ++
-      (if rf.limited then toString rf.n else "-")
+      (if rf.limited then toString rf.n else "-") ++ "\tagain=" ++ again
   | _ => "DRIVER-BAD-CASE"
 
 def resOfName (s : String) : DataReader.Res :=
@@ -54,7 +60,12 @@ def monDR (c a : List String) : String :=
     if natOf st != 0 then "ok"   -- the monitor speaks about fresh readers only
     else
       let l : Option Nat := if lim == "-" then none else some (natOf lim)
-      let bad := Spec.DataMon.check l (bytesOfHex stream) (natsOf sizes) (parseResults results) (bytesOfHex rest)
+      let bad := Spec.DataMon.check l (bytesOfHex stream) (natsOf sizes) (parseResults results) (bytesOfHex rest) ++
+        (match a[4]? with
+         | some f =>
+           if f == "again=-" || f == "again=0/eof" then []
+           else ["C06 a reader that had reported the end of the message returned something else when read once more: " ++ f]
+         | none => [])
       if bad.isEmpty then "ok" else "bad: " ++ String.intercalate "; " bad
   | _, _ => "bad: unparsable observation"
 
